@@ -336,6 +336,8 @@ class _Ttl:
     def term(self, t, predicate=False, position=None):
         st = self.st
         if t[0] == "u":
+            if t[1] == RDF + "nil" and not predicate and st.random() < 0.4:
+                return st.choice(["()", "( )"])
             return self.iri(t[1], predicate)
         if t[0] == "b":
             if position == "o" and t[1] in getattr(self, "lists_now", {}):
@@ -626,7 +628,16 @@ def write_rdfxml_rich(quads, style, ext_base=None):
         else:
             i = st.choice(cands)
             b = st.choice([i[: i.rfind("/") + 1], i.split("#")[0], i[: i.rfind("/") + 1] + "doc.rdf"])
-        return ' xml:base="%s"' % _xml_esc(b, True), b
+        spelled = b
+        if eff:
+            # (an xml:base may itself be a relative reference - resolved against the base in scope - and its fragment does not count)
+            effdir = eff.split("#")[0]
+            effdir = effdir[: effdir.rfind("/") + 1]
+            if b.startswith(effdir) and len(b) > len(effdir) and ":" not in b[len(effdir) :].split("/")[0] and st.random() < 0.5:
+                spelled = b[len(effdir) :]
+        if st.random() < 0.2:
+            spelled += "#top"
+        return ' xml:base="%s"' % _xml_esc(spelled, True), b
 
     def lit_attrs(o, scope, eff):
         lang = o[2] if len(o) > 2 else None
@@ -712,6 +723,8 @@ def write_rdfxml_rich(quads, style, ext_base=None):
         qn, d = qname(p_[1])
         tag = qn + d
         if o_[0] == "u":
+            if o_[1] == RDF + "nil" and st.random() < 0.4:
+                return [ind + st.choice(['<%s rdf:parseType="Collection"/>' % tag, '<%s rdf:parseType="Collection"> </%s>' % (tag, qn)])]
             if K(o_) in blocks and K(o_) not in emitted and st.random() < 0.4:
                 return [ind + "<%s>" % tag] + node(o_, eff, scope, ind + "  ", True) + [ind + "</%s>" % qn]
             return [ind + '<%s rdf:resource="%s"/>' % (tag, _xml_esc(ref(o_[1], eff), True))]
@@ -742,6 +755,9 @@ def write_rdfxml_rich(quads, style, ext_base=None):
                 # a blank node that is object once and subject never: an empty nested node element, or rdf:parseType="Resource"
                 return [ind + st.choice(["<%s><rdf:Description/></%s>" % (tag, qn), '<%s rdf:parseType="Resource"/>' % tag])]
             return [ind + '<%s rdf:nodeID="%s"/>' % (tag, o_[1])]
+        if len(o_) > 3 and o_[3] == RDF + "XMLLiteral" and st.random() < 0.7:
+            # (the lexical form is the XML content itself; the test vocabulary only has content in no namespace)
+            return [ind + '<%s rdf:parseType="Literal">%s</%s>' % (tag, o_[1], qn)]
         la = lit_attrs(o_, scope, eff)
         if o_[1] == "" and st.random() < 0.5:
             return [ind + "<%s%s/>" % (tag, la)]
@@ -839,6 +855,8 @@ def write_jsonld(quads, style=None, ext_base=None):
             n = by.setdefault(ident(s), {"@id": ident(s)})
             if p[1] == RDF + "type" and o[0] in ("u", "b"):
                 n.setdefault("@type", []).append(tident(o))
+            elif o == ["u", RDF + "nil"] and style is not None and _st(style).random() < 0.4:
+                n.setdefault(p[1], []).append({"@list": []})
             elif o[0] == "b" and o[1] in lists:
                 n.setdefault(p[1], []).append({"@list": [obj(m) for m in lists[o[1]]]})
             else:
